@@ -687,14 +687,31 @@ class Surface:
         for inst in pending:
             portable = inst.key.split("|", 1)[1] if "|" in inst.key else inst.key
             moved = None
-            for exact in (True, False):
+            def opname(d):
+                # 'Overflow|Mul(..' -> 'Overflow|Mul', 'index|Vec<..:index(..' -> 'index|index'
+                kind, rest = (d.split("|", 1) + [""])[:2]
+                return kind + "|" + rest.split("(", 1)[0].rsplit(":", 1)[-1]
+            for level in (0, 1, 2):
               if moved is not None:
                   break
               for k, e in self.entries.items():
                 if k in self.used or "|" not in k:
                     continue
                 a1, b1 = k.split("|", 1)[1].split("#")[0], portable.split("#")[0]
-                if a1 == b1 if exact else (fuzz(a1) == fuzz(b1) and a1.split("|")[0] == b1.split("|")[0]):
+                if level == 2:
+                    # the site was rewritten in place: the same function has exactly one unreviewed site and exactly one
+                    # vanished table entry of this kind and operation
+                    fn0 = k.split("|", 1)[0]
+                    same = fn0 == inst.key.split("|", 1)[0] and opname(a1) == opname(b1)
+                    if same:
+                        cand_e = [k2 for k2 in self.entries if k2 not in self.used and k2.split("|", 1)[0] == fn0 and
+                                  opname(k2.split("|", 1)[1]) == opname(a1) and not any(i2.key == k2 for i2 in src)]
+                        cand_i = [i2 for i2 in pending if i2.key.split("|", 1)[0] == fn0 and opname(i2.key.split("|", 1)[1]) == opname(a1)]
+                        same = len(cand_e) == 1 and len(cand_i) == 1
+                    hit = same
+                else:
+                    hit = (a1 == b1) if level == 0 else (fuzz(a1) == fuzz(b1) and a1.split("|")[0] == b1.split("|")[0])
+                if hit:
                     fn = k.split("|", 1)[0]
                     ob = self.P.bodies.get(fn)
                     same_file = ob is None or ob.file == inst.body.file
